@@ -82,6 +82,36 @@ CREDS = [{'roles': [], 'f': []}, {'roles': ['r1'], 'f': ['f1']}, {'roles': ['R2'
          {'roles': ['r1', 'r2'], 'f': ['f1', 'f2']}, {'roles': ['r2'], 'f': ['f1']}, {'f': ['f2']}]
 
 
+def checker_verdict(texts, name, roles):
+    """decision of the oslopolicy-checker tool for one rule: its printed verdict"""
+    import contextlib
+    import io
+    import json
+    import os
+    import shutil
+    import tempfile
+    from oslo_policy import shell
+    d = tempfile.mkdtemp(prefix='verif_chk_')
+    try:
+        pf, af = os.path.join(d, 'policy.json'), os.path.join(d, 'access.json')
+        with open(pf, 'w') as f:
+            json.dump(texts, f)
+        with open(af, 'w') as f:
+            json.dump({'token': {'roles': [{'name': r, 'id': r} for r in roles], 'user': {'id': 'u', 'domain': {'id': 'd'}},
+                                 'project': {'id': 'p', 'domain': {'id': 'd'}}}}, f)
+        out = io.StringIO()
+        with contextlib.redirect_stdout(out):
+            shell.tool(pf, af, name, False, None)
+        verdicts = [ln.strip() for ln in out.getvalue().splitlines() if ln.strip()]
+        if verdicts == ['passed: ' + name]:
+            return True
+        if verdicts == ['failed: ' + name]:
+            return False
+        raise RuntimeError('checker printed %r' % (verdicts,))
+    finally:
+        shutil.rmtree(d, ignore_errors=True)
+
+
 def run(ctx):
     q = ctx.quick
     ev.install_probes()
@@ -175,6 +205,20 @@ def run(ctx):
                 for doraise in (0, 1):
                     cases.append(ec.enforce_case(rules, {'by': 'name', 'name': qn, 'doraise': doraise}, {}, dict({'roles': ['r1'], 'f': []}, **cred_scope),
                                                  dflt=('opt', None), registered=[('p:q', scopes)], want='c06'))
+    # the oslopolicy-checker tool resolves references the same way (its default rule is the one named
+    # "default"): aliases, chains, references under not, undefined references with and without a default rule
+    for dbody in (None, ev.T, ev.F, ev.role('r2')):
+        rules = [('svc:direct', ev.role('r1')), ('svc:alias', ev.rule('svc:direct')), ('svc:chain', ev.rule('svc:alias')),
+                 ('svc:via_undefined', ev.rule('nowhere')), ('svc:not_undefined', ev.Not(ev.rule('nowhere'))),
+                 ('svc:nested', ev.Or(ev.And(ev.role('r1'), ev.rule('nowhere')), ev.rule('svc:chain'))), ('svc:chain2', ev.rule('svc:via_undefined'))]
+        if dbody is not None:
+            rules.append(('default', dbody))
+        texts = {n: ev.rule_text(t) for n, t in rules}
+        for roles in ([], ['r1'], ['r2'], ['r1', 'r2']):
+            for qn in [n for n, _ in rules if n != 'default']:
+                cases.append(ec.enforce_case(rules, {'by': 'name', 'name': qn}, {}, {'roles': roles, 'f': []}, dflt=('name', 'default'), want='c06',
+                                             runner=lambda thunk, qn=qn, roles=roles, texts=texts: checker_verdict(texts, qn, roles),
+                                             extra={'_via': 'oslopolicy-checker (shell.tool) --rule %s' % qn}))
     # sessions: a reference is resolved against the definition that is current at the time of
     # the call - the rule store of a long-lived enforcer is replaced / merged between calls
     sessions = []
